@@ -90,6 +90,10 @@ class TokenSpec:
                     r, m = it.check(kz != self.ks[i])
                     if r == z3.sat:
                         bad.append('C01: token #%d is emitted with a different kind' % i); break
+        # C20: name-like nodes (what references, rename edits and highlights report the range of) are exactly one token
+        for kn, lo, hi, nkids in name_nodes(log):
+            if nkids > 1:
+                bad.append('C20: a %s node spans tokens %d..%d (%d children): ranges reported for names (references, rename edits, highlights, focus ranges) are no longer one whole identifier token' % (kn, lo, hi, nkids)); break
         # C20(i): error ranges
         einfo = []
         for e in errors:
@@ -137,6 +141,30 @@ class TokenSpec:
         a['nerr_paths'] = a.get('nerr_paths', 0) + b.get('nerr_paths', 0)
         a['seen'] = a.get('seen', 0) + b.get('seen', 0)
         a.setdefault('validate', []).extend(b.get('validate', []))
+
+
+NAME_LIKE = ('NAME', 'NAME_REF', 'LABEL', 'TYPE_NAME', 'FIELD_NAME', 'MODULE_NAME_REF')
+
+
+def name_nodes(log):
+    """[(kind name, first token index, last token index, number of children)] of the name-like nodes of a builder log"""
+    want = {syn.KINDS[k]: k for k in NAME_LIKE if k in syn.KINDS}
+    out = []; stack = []; ntok = 0
+    for e in log:
+        if e[0] == 'start':
+            k = syn.kind_of(e[1])
+            stack.append([k.v if not k.sym() else None, ntok, 0])
+            if len(stack) > 1:
+                stack[-2][2] += 1
+        elif e[0] == 'finish':
+            k, lo, n = stack.pop()
+            if k in want:
+                out.append((want[k], lo, ntok - 1, n))
+        else:
+            ntok += 1
+            if stack:
+                stack[-1][2] += 1
+    return out
 
 
 def parser_depth_info():
